@@ -605,6 +605,7 @@ PROBES = [
     ("new-member-callee", "var ns = {K: function (a) { this.a = a; }}; new ns.K(3).a", 3),
     ("integer-key-order", "var o = {b: 1}; o[1] = 2; Object.keys(o).join()", "1,b"),
     ('builtin-arrays-have-no-prototype', "[[1].slice() instanceof Array, JSON.parse('[1]') instanceof Array, Object.getPrototypeOf('a,b'.split(',')) === Array.prototype].join()", 'true,true,true'),
+    ("booleans-have-no-number-methods", "[typeof true.toFixed, typeof false.toPrecision, true.toString(), false.valueOf(), typeof (5).toFixed].join()", "undefined,undefined,true,false,function"),
     ("delete-recreate-order", "var o = {b: 2, c: 3}; delete o.b; o.b = 4; Object.keys(o).join()", "c,b"),
     ("delete-recreate-order-accessor", "var o = {get a() { return 1; }, b: 2, c: 3}; delete o.b; o.b = 4; var ks = []; for (var k in o) ks.push(k); Object.keys(o).join() + '|' + ks.join() + '|' + JSON.stringify(Object.entries(o))",
      'a,c,b|a,c,b|[["a",1],["c",3],["b",4]]'),
